@@ -140,27 +140,35 @@ where
 }
 //@ end
 
-// `EdgeReferences` wraps `iter::Enumerate<slice::Iter<Edge>>`, which has no vstd specification: the struct is opaque here and
-// its `next` is TRUSTED to walk the edge array in index order (stated as the contract of `Graph::edge_references`).
+// `EdgeReferences` wraps `iter::Enumerate<slice::Iter<Edge>>`; the only ASSUMPTION is what `slice.iter().enumerate()` yields
+// (`enumerate_slice`, D23).  What is left to yield is the image of what the wrapped enumeration has left.
+pub open spec fn geref_of<'a, E, Ix: IndexType>(t: (usize, &'a Edge<E, Ix>)) -> EdgeReference<'a, E, Ix> {
+    EdgeReference { index: EdgeIndex(Ix::spec_new(t.0)), node: t.1.node, weight: &t.1.weight }
+}
+pub open spec fn gerefs_of<'a, E, Ix: IndexType>(s: Seq<(usize, &'a Edge<E, Ix>)>) -> Seq<EdgeReference<'a, E, Ix>> { Seq::new(s.len(), |k: int| geref_of(s[k])) }
 //@ item src/graph_impl/mod.rs | - | struct EdgeReferences
 /// Iterator over all edges of a graph.
-/*+*/#[verifier::external_body]
-#[verifier::reject_recursive_types(E)]
+/*+*/#[verifier::reject_recursive_types(E)]
 #[verifier::reject_recursive_types(Ix)]/*-*/
 pub struct EdgeReferences<'a, E: 'a, Ix: IndexType = DefaultIx> {
-    iter: iter::Enumerate<slice::Iter<'a, Edge<E, Ix>>>,
+    pub iter: iter::Enumerate<slice::Iter<'a, Edge<E, Ix>>>,
 }
 //@ end
 
 impl<'a, E, Ix: IndexType> EdgeReferences<'a, E, Ix> {
-    pub uninterp spec fn rest(&self) -> Seq<EdgeReference<'a, E, Ix>>;
+    #[verifier::prophetic]
+    pub open spec fn rest(&self) -> Seq<EdgeReference<'a, E, Ix>> { gerefs_of(self.iter.remaining()) }
 }
 impl<'a, E, Ix: IndexType> vstd::std_specs::iter::IteratorSpecImpl for EdgeReferences<'a, E, Ix> {
-    open spec fn obeys_prophetic_iter_laws(&self) -> bool { true }
+    open spec fn obeys_prophetic_iter_laws(&self) -> bool { self.iter.obeys_prophetic_iter_laws() }
+    #[verifier::prophetic]
     open spec fn remaining(&self) -> Seq<EdgeReference<'a, E, Ix>> { self.rest() }
-    open spec fn decrease(&self) -> Option<nat> { Some(self.rest().len()) }
+    open spec fn decrease(&self) -> Option<nat> { self.iter.decrease() }
     open spec fn will_return_none(&self) -> bool { true }
     open spec fn peek(&self, i: int) -> Option<EdgeReference<'a, E, Ix>> { None }
+}
+impl<'a, E, Ix: IndexType> vstd::std_specs::iter::DoubleEndedIteratorSpecImpl for EdgeReferences<'a, E, Ix> {
+    open spec fn peek_back(&self, i: int) -> Option<EdgeReference<'a, E, Ix>> { None }
 }
 
 //@ item src/graph_impl/mod.rs | - | impl<'a, E, Ix> Iterator for EdgeReferences<'a, E, Ix> where Ix: IndexType
@@ -170,18 +178,42 @@ where
 {
     type Item = EdgeReference<'a, E, Ix>;
 
-    /*+*/#[verifier::external_body]/*-*/
     fn next(&mut self) -> Option<Self::Item> {
-        self.iter.next().map(|(i, edge)| EdgeReference {
+        /*+*/let ghost items = self.iter.remaining();
+        let r = {/*-*/ self.iter.next().map(|/*R:D10 (i, edge) */ __t: (usize, &'a Edge<E, Ix>) /*-*/| /*+*/-> (x: EdgeReference<'a, E, Ix>) ensures x == geref_of(__t) { let (i, edge) = __t;/*-*/ EdgeReference {
             index: edge_index(i),
             node: edge.node,
             weight: &edge.weight,
-        })
+        } /*+*/}/*-*/) /*+*/};
+        proof { if old(self).iter.obeys_prophetic_iter_laws() {
+            if r is Some { assert(items.len() > 0 && r.unwrap() == geref_of(items[0])); assert(self.iter.remaining() == items.drop_first()); assert(old(self).rest() =~= seq![r.unwrap()] + self.rest()); }
+            else { assert(self.rest() =~= Seq::<EdgeReference<'a, E, Ix>>::empty()); } } }
+        r/*-*/
     }
 
     /*+*/#[verifier::external_body]/*-*/
     fn size_hint(&self) -> (usize, Option<usize>) {
         self.iter.size_hint()
+    }
+}
+//@ end
+
+//@ item src/graph_impl/mod.rs | - | impl<E, Ix> DoubleEndedIterator for EdgeReferences<'_, E, Ix> where Ix: IndexType
+impl</*R:D31 */ 'a, /*-*/E, Ix> DoubleEndedIterator for EdgeReferences</*R:D31 '_ */ 'a /*-*/, E, Ix>
+where
+    Ix: IndexType,
+{
+    fn next_back(&mut self) -> Option<Self::Item> {
+        /*+*/let ghost items = self.iter.remaining();
+        let r = {/*-*/ self.iter.next_back().map(|/*R:D10 (i, edge) */ __t: (usize, &'a Edge<E, Ix>) /*-*/| /*+*/-> (x: EdgeReference<'a, E, Ix>) ensures x == geref_of(__t) { let (i, edge) = __t;/*-*/ EdgeReference {
+            index: edge_index(i),
+            node: edge.node,
+            weight: &edge.weight,
+        } /*+*/}/*-*/) /*+*/};
+        proof { if old(self).iter.obeys_prophetic_iter_laws() {
+            if r is Some { assert(items.len() > 0 && r.unwrap() == geref_of(items.last())); assert(self.iter.remaining() == items.drop_last()); assert(old(self).rest() =~= self.rest().push(r.unwrap())); }
+            else { assert(self.rest() =~= Seq::<EdgeReference<'a, E, Ix>>::empty()); } } }
+        r/*-*/
     }
 }
 //@ end
@@ -195,15 +227,16 @@ where
     /// Create an iterator over all edges, in indexed order.
     ///
     /// Iterator element type is `EdgeReference<E, Ix>`.
-    /*+*/#[verifier::external_body]/*-*/
     pub fn edge_references(&self) -> (r: EdgeReferences<E, Ix>)
-        /*+*/ensures r.rest().len() == self.edges@.len(),
+        /*+*/ensures r.obeys_prophetic_iter_laws(), r.decrease() is Some, r.rest().len() == self.edges@.len(),
             forall|k: int| 0 <= k < self.edges@.len() ==> (#[trigger] r.rest()[k]).node == self.edges@[k].node
-                && r.rest()[k].index.i() == k && *r.rest()[k].weight == self.edges@[k].weight/*-*/
+                && r.rest()[k].index == EdgeIndex::<Ix>(Ix::spec_new(k as usize)) && (k <= Ix::spec_max() ==> r.rest()[k].index.i() == k) && *r.rest()[k].weight == self.edges@[k].weight/*-*/     // [edge_references_every_edge_once_in_index_order]
     {
-        EdgeReferences {
-            iter: self.edges.iter().enumerate(),
-        }
+        /*+*/let r = {/*-*/ EdgeReferences {
+            iter: /*R:D23 self.edges.iter().enumerate() */ enumerate_slice(self.edges.as_slice()) /*-*/,
+        } /*+*/};
+        proof { assert forall|k: int| 0 <= k < self.edges@.len() && k <= Ix::spec_max() implies (#[trigger] r.rest()[k]).index.i() == k by { Ix::new_law(k as usize); } }
+        r/*-*/
     }
 //@ end
 
